@@ -88,7 +88,17 @@ func (q *Req) Outcome() string {
 		sb.WriteString(k + "=" + strings.Join(hdr[k], ",") + ";")
 	}
 	sb.WriteString("|")
-	sb.WriteString(q.Trace())
+	// the yield site at which an asynchronous cancel was delivered is a coordinate of the
+	// simulator, not an observable: it is left out of the comparison
+	for i, e := range q.Events {
+		if i > 0 {
+			sb.WriteByte(' ')
+		}
+		if e.K == EvCancel {
+			e.S = ""
+		}
+		sb.WriteString(e.String())
+	}
 	sb.WriteString("|esc=" + q.Escaped)
 	return sb.String()
 }
